@@ -299,8 +299,13 @@ pub(crate) fn repair_corrupted_wal_segment(wal_dir: &Path, segment_id: usize) ->
 		)));
 	}
 
-	// Create a repair directory for the new WAL file
+	// Create a repair directory for the new WAL file. A repair that crashed
+	// half-way leaves its directory behind, and `Wal::open` appends to a segment
+	// it finds: always start from an empty directory.
 	let repair_dir = wal_dir.join("repair_temp");
+	if repair_dir.exists() {
+		fs::remove_dir_all(&repair_dir)?;
+	}
 	fs::create_dir_all(&repair_dir)?;
 
 	// Create a new Wal for writing the repaired data
